@@ -78,15 +78,15 @@ def leading_asserts(fi: FunctionInfo) -> list[ast.Assert]:
 
 
 def subst_self(e: ast.AST, selfname: str, recv: ast.AST) -> ast.AST:
-    import copy
+    from ..astutil import clone
 
     class T(ast.NodeTransformer):
         def visit_Name(self, n):  # noqa: N802
             if n.id == selfname:
-                return copy.deepcopy(recv)
+                return clone(recv)
             return n
 
-    return T().visit(copy.deepcopy(e))
+    return T().visit(clone(e))
 
 
 def atom_and_truth(pred: ast.AST) -> tuple[str, bool]:
@@ -222,19 +222,19 @@ def check(an: Analysis) -> None:
     # ------------------------------------------------------------------ C09.4 upward notification
     ob = an.ob("C09.4", "K1", "after resolving, _complete_if_able notifies the (not yet completed) parent on every normal path", [f"{SM}._complete_if_able"])
     dcia = Deps(prog, cia)
-    ups = [n for n in call_nodes(an, g, CIA) if "attr:self._parent" in dcia.of(n.ast.func.value)]  # type: ignore[union-attr]
+    ups = [n for n in call_nodes(an, g, CIA) if "attr:self._parent" in dcia.origins(n.ast.func.value)]  # type: ignore[union-attr]
     if not ups:
         ob.fail(cia, None, "the parent scope is never notified about the completion of a nested scope")
     elif rnodes:
         ob.inst(cia, ups[0].ast)
 
         def env_parent(e: ast.AST):
-            dd = dcia.of(e)
-            if isinstance(e, (ast.Name, ast.Attribute)) and dd <= {"attr:self._parent", "param:self"} and "attr:self._parent" in dd:
+            dd = dcia.origins(e)
+            if isinstance(e, (ast.Name, ast.Attribute)) and dd == {"attr:self._parent"}:
                 return True
-            if isinstance(e, ast.Call) and isinstance(e.func, ast.Attribute) and e.func.attr == "done" and "attr:self._parent" in dcia.of(e.func.value):
+            if isinstance(e, ast.Call) and isinstance(e.func, ast.Attribute) and e.func.attr == "done" and "attr:self._parent" in dcia.root_origins(e.func.value):
                 return False
-            if isinstance(e, ast.Attribute) and e.attr == "is_completed" and "attr:self._parent" in dcia.of(e.value):
+            if isinstance(e, ast.Attribute) and e.attr == "is_completed" and "attr:self._parent" in dcia.root_origins(e.value):
                 return False
             return NOVALUE
 
@@ -247,7 +247,7 @@ def check(an: Analysis) -> None:
     ob = an.ob("C09.5", "K1", "a scope created while another is current gets it as _parent and is appended to its _nested", [f"{SM}.__init__", f"{MC}.scope"])
     gi = an.cfg(init)
     di = Deps(prog, init)
-    apps = [n for n in gi.nodes if n.kind == "call" and isinstance(n.ast.func, ast.Attribute) and n.ast.func.attr == "append" and isinstance(n.ast.func.value, ast.Attribute) and n.ast.func.value.attr == "_nested" and "param:parent" in di.of(n.ast.func.value.value)]  # type: ignore[union-attr]
+    apps = [n for n in gi.nodes if n.kind == "call" and isinstance(n.ast.func, ast.Attribute) and n.ast.func.attr == "append" and isinstance(n.ast.func.value, ast.Attribute) and n.ast.func.value.attr == "_nested" and "param:parent" in di.origins(n.ast.func.value.value)]  # type: ignore[union-attr]
     if not apps:
         ob.fail(init, None, "a nested scope is never registered in its parent's _nested")
     else:
@@ -256,12 +256,12 @@ def check(an: Analysis) -> None:
             ob.fail(init, apps[0].ast, "registers something else than the new scope")
 
         def env_reg(e: ast.AST):
-            dd = di.of(e)
+            dd = di.origins(e)
             if isinstance(e, ast.Name) and dd == {"param:parent"}:
                 return True
-            if isinstance(e, ast.Call) and isinstance(e.func, ast.Attribute) and e.func.attr == "done" and "param:parent" in di.of(e.func.value):
+            if isinstance(e, ast.Call) and isinstance(e.func, ast.Attribute) and e.func.attr == "done" and "param:parent" in di.root_origins(e.func.value):
                 return False
-            if isinstance(e, ast.Attribute) and e.attr == "is_completed" and "param:parent" in di.of(e.value):
+            if isinstance(e, ast.Attribute) and e.attr == "is_completed" and "param:parent" in di.root_origins(e.value):
                 return False
             return NOVALUE
 
@@ -269,7 +269,7 @@ def check(an: Analysis) -> None:
         if w is not None:
             ob.fail(init, apps[0].ast, "with a live parent given, a normal path through __init__ skips the registration", CFG.show_path(w))
     pv = prog.cls(SM).attr_val.get("_parent", [])
-    if not pv or not all("param:parent" in di.of(v) for v in pv):
+    if not pv or not all("param:parent" in di.origins(v) for v in pv):
         ob.fail(init, None, "self._parent does not hold the given parent")
     else:
         ob.inst(init, pv[0], "_parent")
@@ -279,7 +279,7 @@ def check(an: Analysis) -> None:
     nested_ok = False
     for c in ctor:
         pa = next((k.value for k in c.keywords if k.arg == "parent"), None)
-        if pa is not None and "call:contextvars.ContextVar.get" in ds.of(pa):
+        if pa is not None and "call:contextvars.ContextVar.get" in ds.origins(pa):
             nested_ok = True
             ob.inst(scope, c, "nested branch")
     if not nested_ok:
@@ -328,8 +328,7 @@ def check(an: Analysis) -> None:
 
                     est = "T" if truth else "F"
                     for node in cn:
-                        w = gc.dominated_by_branch(node, matches, "F" if est == "T" else "T")
-                        # dominated_by_branch removes `polarity` edges; we remove the *violating* edges and ask reachability
+                        # remove the establishing edges: the call must become unreachable
                         w = gc.search([gc.entry], lambda n, node=node: n is node, skip_edge=lambda x, y, lab: matches(x) and lab == est)
                         if w is not None:
                             ob.fail(fi, c, f"calls {callee.name}() whose precondition `{stmt_text(a.test)}` is not established for `{stmt_text(recv)}` on this path", CFG.show_path(w))
@@ -382,12 +381,12 @@ def check(an: Analysis) -> None:
         ob.inst(init, apps[0].ast)
 
         def env_completed(e: ast.AST):
-            dd = di.of(e)
+            dd = di.origins(e)
             if isinstance(e, ast.Name) and dd == {"param:parent"}:
                 return True
-            if isinstance(e, ast.Call) and isinstance(e.func, ast.Attribute) and e.func.attr == "done" and "param:parent" in di.of(e.func.value):
+            if isinstance(e, ast.Call) and isinstance(e.func, ast.Attribute) and e.func.attr == "done" and "param:parent" in di.root_origins(e.func.value):
                 return True
-            if isinstance(e, ast.Attribute) and e.attr == "is_completed" and "param:parent" in di.of(e.value):
+            if isinstance(e, ast.Attribute) and e.attr == "is_completed" and "param:parent" in di.root_origins(e.value):
                 return True
             return NOVALUE
 
